@@ -17,14 +17,15 @@ MC_CFG = """SPECIFICATION %(spec)s
 CONSTANTS
   Conns = %(conns)s
   Max = %(max)d
-  IdleT = 1
+  IdleT = %(idlet)d
   Stops = %(stops)s
   Nfs = %(nfs)s
   Exported = %(exported)s
+  Slow = %(slow)s
   Mutant = "%(mutant)s"
 %(tail)s
 """
-SAFETY = "INVARIANTS TypeOK CountMatches CountedOnce GoneUncounted Bounded ServedAreCounted AfterStop AfterClose\nPROPERTIES NothingAfterStop"
+SAFETY = "INVARIANTS TypeOK CountMatches CountedOnce GoneUncounted Bounded ServedAreCounted AfterStop AfterClose\nPROPERTIES NothingAfterStop NoReapMidCall"
 
 TRACE_TLA = """---- MODULE MCConnMgrTrace ----
 EXTENDS ConnMgrTrace
@@ -43,6 +44,7 @@ CONSTANTS
   Stops <- TStops
   Nfs <- TNfs
   Exported = FALSE
+  Slow = {}
   Mutant = "none"
   KnownDeviations = %(known)s
   Mode = "%(mode)s"
@@ -51,7 +53,7 @@ CONSTANTS
 
 
 def mc(ctx, name, **kw):
-    d = dict(spec="Spec", conns="{1, 2}", max=1, stops="{1}", nfs="{}", exported="TRUE", mutant="none", tail=SAFETY)
+    d = dict(spec="Spec", conns="{1, 2}", max=1, stops="{1}", nfs="{}", exported="TRUE", slow="{}", idlet=1, mutant="none", tail=SAFETY)
     d.update(kw)
     return ctx.write_cfg("ConnMgr", name, MC_CFG % d)
 
@@ -59,17 +61,21 @@ def mc(ctx, name, **kw):
 def exhaustive(ctx):
     q = ctx.quick()
     W = dict(workers=4 if q else 16, deadlock=False, heap="4g")
-    # measured (distinct states): 2 conns / 1 Stop: 1.1e5; 1 conn / 2 Stops / 1 Close: 3.5e4; 2 conns / 2 Stops / 1 Close: 3.3e6;
-    # 3 conns / Max 2 / 1 Stop / 1 Close: ~2e7 (thorough)
+    # measured (distinct states): 2 conns / 1 Stop: 1.8e5; 1 conn / 2 Stops / 1 Close: 7.1e4; 2 conns / 2 Stops / 1 Close: 4.3e6;
+    # 3 conns / Max 2 / 1 Stop / IdleT 0: 5.8e6 (with IdleT 1: 1.8e7, 7 min); a slow and a fast conn / 1 Stop / 1 Close: 1.1e6
     ctx.tlc_exhaustive("ConnMgr", "ConnMgr", mc(ctx, "MC_conns.cfg"), timeout=600, **W)
-    # (safety and liveness in one run: FairSpec; idle connections are reaped, a Stop that was called returns)
-    ctx.tlc_exhaustive("ConnMgr", "ConnMgr", mc(ctx, "MC_stops.cfg", spec="FairSpec", conns="{1}", stops="{1, 2}", nfs="{1}",
-                                                tail=SAFETY + " Reaped StopTerminates"), timeout=600, **W)
+    ctx.tlc_exhaustive("ConnMgr", "ConnMgr", mc(ctx, "MC_stops.cfg", conns="{1}", stops="{1, 2}", nfs="{1}"), timeout=600, **W)
+    # requests that take time: Close / Stop while one executes in the worker pool, the idle reaper and a call in progress
+    # (the application's own server; measured: one slow connection 2.2e4 states, a slow and a fast one 1.1e6)
+    # (in the quick tier safety and liveness in one run: FairSpec; idle connections are reaped, a Stop that was called returns)
+    ctx.tlc_exhaustive("ConnMgr", "ConnMgr", mc(ctx, "MC_slow.cfg", spec="FairSpec" if q else "Spec", conns="{1}" if q else "{1, 2}", slow="{1}",
+                                                nfs="{1}", exported="FALSE", tail=SAFETY + (" Reaped StopTerminates" if q else "")),
+                       timeout=900, **W)
     if not q:
         ctx.tlc_exhaustive("ConnMgr", "ConnMgr", mc(ctx, "MC_both.cfg", stops="{1, 2}", nfs="{1}"), timeout=1200, **W)
-        ctx.tlc_exhaustive("ConnMgr", "ConnMgr", mc(ctx, "MC_managed.cfg", conns="{1, 2}", stops="{1}", nfs="{1, 2}", exported="FALSE"),
+        ctx.tlc_exhaustive("ConnMgr", "ConnMgr", mc(ctx, "MC_managed.cfg", conns="{1}", stops="{1}", nfs="{1, 2}", exported="FALSE"),
                            timeout=1200, **W)
-        ctx.tlc_exhaustive("ConnMgr", "ConnMgr", mc(ctx, "MC_three.cfg", conns="{1, 2, 3}", max=2, stops="{1}", nfs="{}"), timeout=1800, **W)
+        ctx.tlc_exhaustive("ConnMgr", "ConnMgr", mc(ctx, "MC_three.cfg", conns="{1, 2, 3}", max=2, stops="{1}", nfs="{}", idlet=0), timeout=1800, **W)
     # liveness: idle connections are reaped, a Stop that was called returns (weak fairness on the server's steps)
     if not q:
         ctx.tlc_exhaustive("ConnMgr", "ConnMgr", mc(ctx, "MC_live.cfg", spec="FairSpec", tail="PROPERTIES Reaped StopTerminates"),
@@ -77,7 +83,9 @@ def exhaustive(ctx):
     ctx.cov["exhaustive"] = True
     nv = [("StopNoWait", dict(conns="{1}", stops="{1, 2}", nfs="{1}"), ("AfterStop", "AfterClose", "NothingAfterStop"))]
     if not q:
-        nv += [("DoubleUnreg", dict(conns="{1}", stops="{1, 2}", nfs="{1}"), ("CountMatches", "CountedOnce")),
+        nv += [("ReleaseBeforePoolStop", dict(conns="{1}", slow="{1}", nfs="{1}", exported="FALSE"), ("AfterClose",)),
+               ("NoRefreshAtRead", dict(slow="{1}", nfs="{}", exported="FALSE"), ("NoReapMidCall", "Bounded", "ServedAreCounted")),
+               ("DoubleUnreg", dict(conns="{1}", stops="{1, 2}", nfs="{1}"), ("CountMatches", "CountedOnce")),
                ("NoLimit", dict(), ("Bounded",)),
                ("CloseNoRelease", dict(conns="{1}", stops="{1, 2}", nfs="{1}"), ("AfterClose",))]
     for name, kw, expect in nv:
@@ -134,7 +142,7 @@ def run(ctx):
     pc.run_drivers(ctx, binp, "TestVF_PolicyConnHooks", {}, timeout=120)   # exit 2 at once when the hook call sites are absent
     exhaustive(ctx)
     racelog = os.path.join(ctx.scratch, "race")
-    env = {"VF_HIST": 16 if q else 64, "GORACE": "log_path=%s halt_on_error=0 exitcode=0" % racelog}
+    env = {"VF_HIST": 16 if q else 64, "VF_STOPRACE": 6 if q else 24, "GORACE": "log_path=%s halt_on_error=0 exitcode=0" % racelog}
     out = pc.run_drivers(ctx, binp, "TestVF_ConnMgr", env, timeout=900, allow_race_exit=True)
     p = os.path.join(ctx.scratch, "cm.ndjson")
     if not os.path.exists(p):
@@ -214,26 +222,32 @@ def run(ctx):
                        "(IdleTimeout 100 ms, one silent and one never-used connection, one busy), random (4-7 clients with random pings / "
                        "closes / idle periods, Stop at a random moment, possibly two Stops at once), stoprace (8 clients connecting while "
                        "Stop runs), export (server started by AbsfsNFS.Export, Close / Unexport stop it), managed (handles and caches "
-                       "filled through the wire, Stop, then Close / Unexport repeated). Every history ends with probes of all "
+                       "filled through the wire, Stop, then Close / Unexport repeated), stopbusy / closebusy (Stop resp. Close called "
+                       "while requests execute in the backend for 0.3 s), midcall (MaxConnections 1, IdleTimeout 1 s: quiet 0.9 s, then a "
+                       "call the backend holds 0.65 s while other clients try to connect). Every history ends with probes of all "
                        "connections, a new dial, a goroutine census and repeated Stop / Close / Unexport. A history is non-trivial when "
                        "a connection was rejected at the limit or reaped")
     ctx.cov["spec_actions_covered_by_impl"] = ["Listen", "Dial", "PeerClose", "AccCheck", "AccTake", "AccErr", "Register", "Reject", "Serve",
                                                "ConnNotice", "ConnExit", "ReapPick(one)", "ReapClose", "IdleExit", "StopCancel",
                                                "StopCloseListener", "StopCollect", "StopCloseOne", "StopWait", "StopReturn", "NfsBegin",
-                                               "NfsStopped", "NfsRelease", "NfsClear", "LocalUse"]
+                                               "NfsStopped", "NfsPoolStop", "NfsRelease", "NfsClear", "LocalUse", "ServeBegin", "ServeEnd"]
     ctx.assumptions += ["the vhook call sites cm.accept / cm.reject / cm.unreg are under connMutex and carry connCount",
                         "a client holds proof that a connection is being served from its first reply until the last request that "
                         "was answered was sent; only such intervals are counted against MaxConnections",
                         "MaxConnections and IdleTimeout are not changed while a history runs",
                         "no request is blocked in the backend when Stop is called (Stop's 5 s wait is not forced to expire)",
-                        "Close / Unexport of a handler whose Server the application manages are called after that Server was stopped",
+                        "Unexport of a handler whose Server the application manages is called when no request is executing; Close may be "
+                        "called while requests execute in the worker pool (it waits for them); nothing is sent after either",
+                        "a connection with a request executing in the backend counts as served; no call takes longer than IdleTimeout "
+                        "(a longer call is reaped in the middle by the pinned code as well; not generated)",
                         "goroutines are attributed by the frames acceptLoop / handleConnectionLoop / idleConnectionCleanupLoop of runtime.Stack"]
 
 
 def confirm_timed(ctx, binp, reset, why):
     for k in range(2):
         sub = ctx.sub("confirm%d" % k)
-        rc, out = ctx.run_harness(binp, "TestVF_ConnMgr", {"VF_ONLY": reset["hist"], "VF_HIST": reset["hist"] + 1, "VF_OUT": sub,
+        q = ctx.quick()
+        rc, out = ctx.run_harness(binp, "TestVF_ConnMgr", {"VF_ONLY": reset["hist"], "VF_HIST": 16 if q else 64, "VF_STOPRACE": 6 if q else 24, "VF_OUT": sub,
                                                             "GORACE": "halt_on_error=0 exitcode=0"}, 300)
         p = os.path.join(sub, "cm.ndjson")
         if not os.path.exists(p):
